@@ -35,6 +35,8 @@ pub struct ScriptedRead {
     pub log: Vec<(usize, isize)>,
     pub zero_len_bufs: usize,
     pub stalled: bool,
+    /// record calls in `log` (off for allocation measurements: the log itself allocates inside the measured window)
+    pub keep_log: bool,
 }
 
 impl ScriptedRead {
@@ -54,6 +56,7 @@ impl ScriptedRead {
             log: Vec::new(),
             zero_len_bufs: 0,
             stalled: false,
+            keep_log: true,
         }
     }
     pub fn with_chunks(mut self, chunks: Vec<usize>, tail: usize) -> Self {
@@ -106,13 +109,17 @@ impl ScriptedRead {
         }
         if let Some((at, kind, msg)) = &self.fault_at {
             if *at == idx {
-                self.log.push((buf.len(), -1));
+                if self.keep_log {
+                    self.log.push((buf.len(), -1));
+                }
                 return Err(io::Error::new(*kind, msg.clone()));
             }
         }
         if buf.is_empty() {
             self.zero_len_bufs += 1;
-            self.log.push((0, 0));
+            if self.keep_log && self.log.len() < 4096 {
+                self.log.push((0, 0));
+            }
             return Ok(0);
         }
         // temporary EOF?
@@ -126,7 +133,9 @@ impl ScriptedRead {
                 self.stalled = true;
                 let pe = buf.len().min(48);
                 self.fill_poison(&mut buf[..pe]);
-                self.log.push((buf.len(), 0));
+                if self.keep_log && self.log.len() < 4096 {
+                    self.log.push((buf.len(), 0));
+                }
                 return Ok(0);
             }
             limit = limit.min(s - self.pos);
@@ -139,7 +148,7 @@ impl ScriptedRead {
         self.fill_poison(&mut buf[n..pe]);
         buf[..n].copy_from_slice(&self.data[self.pos..self.pos + n]);
         self.pos += n;
-        if self.log.len() < 4096 {
+        if self.keep_log && self.log.len() < 4096 {
             self.log.push((buf.len(), n as isize));
         }
         Ok(n)
